@@ -2,6 +2,7 @@
 use vstd::prelude::*;
 use vstd::arithmetic::power2::*;
 use vstd::multiset::*;
+use vstd::iset::*;
 use std::io;
 use std::io::Cursor;
 use std::io::Read;
@@ -27,6 +28,13 @@ proof fn lemma_le32_roundtrip(n: u32) ensures le32_val(le32_bytes(n)) == n, le32
 spec fn enc_u32s(s: Seq<u32>) -> Seq<u8> decreases s.len() { if s.len() == 0 { Seq::empty() } else { enc_u32s(s.drop_last()) + le32_bytes(s.last()) } }
 spec fn dec_u32_at(p: Seq<u8>, i: int) -> u32 { le32_val(p.subrange(4 * i, 4 * i + 4)) }
 spec fn dec_u32s(p: Seq<u8>, n: int) -> Seq<u32> { Seq::new(n as nat, |i: int| dec_u32_at(p, i)) }
+proof fn lemma_skip_word(p: Seq<u8>, k: int)
+  requires 0 <= k, 4 * k + 4 <= p.len()
+  ensures p.skip(4 * k).take(4) == p.subrange(4 * k, 4 * k + 4), p.skip(4 * k).skip(4) == p.skip(4 * (k + 1)), dec_u32_at(p, k) == le32_val(p.skip(4 * k).take(4))
+{
+    assert(p.skip(4 * k).take(4) =~= p.subrange(4 * k, 4 * k + 4));
+    assert(p.skip(4 * k).skip(4) =~= p.skip(4 * (k + 1)));
+}
 proof fn lemma_enc_u32s_len(s: Seq<u32>) ensures enc_u32s(s).len() == 4 * s.len() decreases s.len() {
     if s.len() > 0 { lemma_enc_u32s_len(s.drop_last()); lemma_le32_roundtrip(s.last()); }
 }
@@ -108,7 +116,7 @@ proof fn lemma_nz_id(s: Seq<u32>)
     if s.len() > 0 { lemma_nz_id(s.drop_last()); assert(s.drop_last().push(s.last()) =~= s); }
 }
 
-spec fn seq_set(s: Seq<u32>) -> Set<u32> { Set::new(|c: u32| s.contains(c)) }
+spec fn seq_set(s: Seq<u32>) -> ISet<u32> { ISet::new(|c: u32| s.contains(c)) }
 proof fn lemma_seq_set_push(s: Seq<u32>, c: u32) ensures seq_set(s.push(c)) == seq_set(s).insert(c) {
     let t = s.push(c);
     assert forall|x: u32| seq_set(t).contains(x) <==> (seq_set(s).contains(x) || x == c) by {
@@ -298,7 +306,7 @@ impl Container {
     spec fn wf_len(&self) -> bool { self.len == nz(self.coupons@).len() }
     spec fn wf(&self) -> bool { self.wf_lg() && self.wf_capacity() && self.wf_len() }
     // abstract view: the set of coupons held
-    spec fn cset(&self) -> Set<u32> { Set::new(|c: u32| c != 0 && self.coupons@.contains(c)) }
+    spec fn cset(&self) -> ISet<u32> { ISet::new(|c: u32| c != 0 && self.coupons@.contains(c)) }
 
     fn new(lg_size: usize) -> (r: Self)
       requires /*@C14.coupons.lg_size_range*/ lg_size <= 18
@@ -407,8 +415,8 @@ impl List {
             {
                 let i = vx_i1;
                 let coupon = &mut coupons[vx_i1];
-                proof { assert(p0.skip(4 * vx_i1).take(4) =~= p0.subrange(4 * vx_i1, 4 * vx_i1 + 4)); assert(p0.skip(4 * vx_i1).skip(4) =~= p0.skip(4 * (vx_i1 + 1))); }
                 *coupon = cursor.read_u32_le().vx_io("coupon")?;
+                proof { lemma_skip_word(p0, vx_i1 as int); }
                 vx_i1 += 1;
             }
             proof { assert(coupons@ =~= dec_u32s(p0, array_size as int)); }
@@ -491,7 +499,7 @@ impl List {
                     lemma_enc_u32s_push(nz(all.take(vx_i1 as int - 1)), coupon);
                     lemma_nz_take_le(all, vx_i1 as int);
                     if vx_i1 == all.len() { assert(all.take(vx_i1 as int) =~= all); }
-                    if coupon != 0 && write_idx + 1 >= array_size { lemma_nz_prefix_full(all, vx_i1 as int); }
+                    if coupon != 0 && write_idx as int + 1 >= array_size as int { lemma_nz_prefix_full(all, vx_i1 as int); }
                 }
                 if compact && coupon == 0 {
                     continue; // Skip empty coupons in compact mode
@@ -582,8 +590,8 @@ impl HashSet {
             let mut hash_set = HashSet::new(lg_arr);
             proof {
                 lemma_nz_all_zero(hash_set.container.coupons@);
-                assert(hash_set.container.cset() =~= Set::<u32>::empty());
-                assert(seq_set(dec_u32s(p0, 0)) =~= Set::<u32>::empty());
+                assert(hash_set.container.cset() =~= ISet::<u32>::empty());
+                assert(seq_set(dec_u32s(p0, 0)) =~= ISet::<u32>::empty());
             }
             for i in 0..coupon_count
               invariant
@@ -592,9 +600,9 @@ impl HashSet {
                 (forall|j: int| 0 <= j < i ==> dec_u32_at(p0, j) != 0) ==> hash_set.container.wf_len() && hash_set.container.cset() == seq_set(dec_u32s(p0, i as int)),
                 hash_set.container.len <= i,
             {
-                proof { assert(p0.skip(4 * i).take(4) =~= p0.subrange(4 * i, 4 * i + 4)); assert(p0.skip(4 * i).skip(4) =~= p0.skip(4 * (i + 1))); }
                 let coupon = cursor.read_u32_le().vx_io("coupon")?;
                 proof {
+                    lemma_skip_word(p0, i as int);
                     assert(coupon == dec_u32_at(p0, i as int));
                     assert(dec_u32s(p0, i as int + 1) =~= dec_u32s(p0, i as int).push(coupon));
                     lemma_seq_set_push(dec_u32s(p0, i as int), coupon);
@@ -620,8 +628,8 @@ impl HashSet {
             {
                 let i = vx_i2;
                 let coupon = &mut coupons[vx_i2];
-                proof { assert(p0.skip(4 * vx_i2).take(4) =~= p0.subrange(4 * vx_i2, 4 * vx_i2 + 4)); assert(p0.skip(4 * vx_i2).skip(4) =~= p0.skip(4 * (vx_i2 + 1))); }
                 *coupon = cursor.read_u32_le().vx_io("coupon")?;
+                proof { lemma_skip_word(p0, vx_i2 as int); }
                 vx_i2 += 1;
             }
             proof { assert(coupons@ =~= dec_u32s(p0, array_size as int)); }
